@@ -9,6 +9,7 @@ import (
 	"github.com/relex/gotils/logger"
 	"github.com/relex/slog-agent/base"
 	"github.com/relex/slog-agent/defs"
+	"github.com/relex/slog-agent/util/vhook"
 )
 
 // sinksByClientNumber is a fix-sized array to hold downstream sinks by client number as array index
@@ -71,6 +72,7 @@ func NewReloadableOrchestrator(downstream base.Orchestrator, initiateReload Init
 // NewSink creates a new reloadable sink for an input source (e.g. incoming TCP connection)
 func (orc *ReloadableOrchestrator) NewSink(clientAddress string, clientNumber base.ClientNumber) base.BufferReceiverSink {
 	newDownstream := orc.downstream.NewSink(clientAddress, clientNumber)
+	vhook.At("reloadable.NewSink.beforeLock")
 
 	lockT := orc.downstreamMutex.RLock() // only read-lock since we assume clientNumber is unique and nobody else is accessing it
 	defer orc.downstreamMutex.RUnlock(lockT)
@@ -118,9 +120,11 @@ func (orc *ReloadableOrchestrator) reload() {
 		// keep closed sinks in place so we know which ones to re-create below
 	}
 	orc.downstream.Shutdown()
+	vhook.At("reloadable.reload.afterShutdown")
 
 	// recreate downstream Orchestrator and all sinks closed above
 	orc.downstream = completeRenewal()
+	vhook.At("reloadable.reload.beforeRecreate")
 	for i, sink := range orc.downstreamSinks {
 		if sink == nil {
 			continue
